@@ -339,6 +339,20 @@ def impl_calls(case):
 
     def _dec(fn):
         keep["orig"] = fn
+        # Another function sharing fn's code object (as closures produced by one factory do) but with
+        # other defaults is decorated first: nothing learnt about it may leak into fn's wrapper.
+        try:
+            import types as _types
+            sib = _types.FunctionType(fn.__code__, fn.__globals__, fn.__name__, None, fn.__closure__)
+            sib.__kwdefaults__ = None
+            if fn.__defaults__:
+                sib.__defaults__ = tuple(object() for _ in fn.__defaults__)
+            if fn.__kwdefaults__:
+                sib.__kwdefaults__ = {k: object() for k in fn.__kwdefaults__}
+            sib.__module__, sib.__qualname__ = fn.__module__, fn.__qualname__ + "_sibling"
+            log_call(sib)
+        except Exception:
+            pass
         w = log_call(**kwargs)(fn) if kwargs else log_call(fn)
         keep["wrapped"] = w
         return w
